@@ -616,6 +616,32 @@ def check_c01(tier, seed, res):
                               "requests pipelined on one connection did not each reach a handler exactly once with their own content: %d delivered of %d sent; not delivered e.g. %s; delivered but never sent (or twice) e.g. %s" % (
                                   len(gl), len(want), lost[:1], extra[:1]))
         dist["pipelined-batches"] = len(batches)
+    # one frame arriving in two pieces around a read timeout, with a handler of the connection in
+    # flight: the bytes behind the cut are the INSIDE of the client's request (here: an attribute
+    # value that happens to hold a well-formed Delete request) - no handler may ever be given them
+    inner = "300f0201034a0a636e3d61646d696e2c6f"   # Delete(id 3, "cn=admin,o")
+    model_add = run_driver("req s1 add 2 %s 1 %s 1 %s 0\n" % ("636e3d782c6f3d79", "64657363", inner))
+    parts = model_add.strip().split(" | ")
+    if len(parts) == 3:
+        wire = parts[0].split(" ")[2]
+        cut = wire.index(inner)
+        firstw = "300c02010163070a01000a010000"  # placeholder replaced below
+        m1 = run_driver("req s0 del 1 636e3d66697273742c6f3d79 0\n").strip().split(" | ")
+        case = "pipesplit sp 250 %s %s %s" % (m1[0].split(" ")[2], wire[:cut], wire[cut:])
+        r = parse_results(run_vh(case + "\n")).get(("pipesplit", "sp"), "HARNESS no result")
+        res.evaluations += 1
+        res.nontrivial.add(case)
+        sent = {m1[1][3:], parts[1][3:]}
+        if r.startswith("HARNESS"):
+            res.mismatch(case, r, "-")
+        else:
+            gotl = r.split(" ", 1)[1].split(" ; ") if " " in r else []
+            alien = [g_ for g_ in gotl if g_ and g_ not in sent]
+            if alien:
+                res.violation("split-frame-desync", case, r, " ; ".join(sorted(sent)),
+                              "a handler was given a request the client never sent: %s (the inside of a frame that arrived in two pieces around a read timeout was decoded as a frame)" % alien[0])
+            else:
+                res.sample(case[:120] + "  =>  " + r[:120])
     # requests that must never be delivered: unsupported protocolOps, bind versions != 3
     neg = gen_cases("c01neg", seed, 0, tier)
     model, impl = differential(neg, wd("C01"), "neg")
@@ -651,7 +677,7 @@ def check_c02(tier, seed, res):
     if rc != 0:
         raise RuntimeError("vh mutate failed: " + err[-1000:])
     corpus = corpus_cases("C02")
-    allcases = corpus + muts
+    allcases = corpus + muts + gen_cases("c02deep", seed, 0, tier).replace("decode ", "decode deep")
     model, impl = differential(allcases, wd("C02"), "main")
     oracle_skipped = 0
     classes = {"OK": 0, "ERR": 0, "PANIC": 0}
@@ -949,6 +975,20 @@ def check_c04(tier, seed, res):
     model, impl = differential(cases, wd("C04"), "main")
     dist = {}
     resp_compare(res, cases, model, impl, dist, "resp-fields:")
+    # on the wire, from a real server whose logger is at Debug / Trace level: what arrives is the
+    # response the handler wrote (c05run parses every frame: message id, kind, payload)
+    env = dict(GOENV, VERIF_CERTDIR=os.path.join(WORK, "certs"))
+    os.makedirs(env["VERIF_CERTDIR"], exist_ok=True)
+    for lvl in ("debug", "trace"):
+        case = "c05run %s %s 0 3 F2x100 E2x300 X3x4097" % (lvl, lvl)
+        p = subprocess.run([VH, "run"], input=case + "\n", stdout=subprocess.PIPE, stderr=subprocess.PIPE, text=True, errors="replace", env=env, timeout=300)
+        r = parse_results(p.stdout).get(("c05run", lvl), "HARNESS no result")
+        res.evaluations += 1
+        res.nontrivial.add(case)
+        if r.startswith("SPECFAIL"):
+            res.violation("resp-on-the-wire:loglevel-" + lvl, case, r, "the frames the handlers wrote", "with the server's logger at %s level a response does not arrive as the LDAPMessage the handler wrote: %s" % (lvl, r[9:]))
+        elif not r.startswith("OK"):
+            res.mismatch(case, r, "-")
     res.extra["distribution"] = dist
     res.rule = C04_RULE
 
@@ -1111,6 +1151,21 @@ def check_c03(tier, seed, res):
     # end to end: 300 requests pipelined on one connection with every handler waiting - each is
     # handed to exactly one handler (none is answered by gldap in the handlers' place)
     life_check("C03", ["pipe300"], 0, tier, seed, res)
+    # a connection accepted by a TLS listener: extended requests (StartTLS among them) are requests
+    # like any other for the Mux - own route or default route, one handler each
+    envt = dict(GOENV, VERIF_CERTDIR=os.path.join(WORK, "certs"))
+    os.makedirs(envt["VERIF_CERTDIR"], exist_ok=True)
+    subprocess.run([VH, "gencerts"], env=envt, timeout=60)
+    for routes in ("route", "default"):
+        case = "c03tls %s %s" % (routes, routes)
+        p = subprocess.run([VH, "run"], input=case + "\n", stdout=subprocess.PIPE, stderr=subprocess.PIPE, text=True, errors="replace", env=envt, timeout=120)
+        r = parse_results(p.stdout).get(("c03tls", routes), "HARNESS no result")
+        res.evaluations += 1
+        res.nontrivial.add(case)
+        if r.startswith("SPECFAIL"):
+            res.violation("dispatch-tls-listener", case, r, "one handler per request", r[9:])
+        elif not r.startswith("OK"):
+            res.mismatch(case, r, "-")
     res.extra["distribution"] = dist
     res.exhaustive = True
     res.rule = ("route tables over the 43-route alphabet (bind, modify, add, delete, 3 extended names, search with base in {none,dc=a,DC=A,dc=b} x filter in "
@@ -1384,6 +1439,7 @@ def check_c20(tier, seed, res):
     dir_check("C20", "c20", 60 if tier == "quick" else 3000, tier, seed, res, c20_violations)
     dir_check("C20", "c20shared", 25 if tier == "quick" else 1000, tier, seed, res, c20_violations, tag="shared")
     dir_check("C20", "c20paren", 12 if tier == "quick" else 300, tier, seed, res, c20_violations, tag="paren")
+    dir_check("C20", "c20multi", 12 if tier == "quick" else 300, tier, seed, res, c20_violations, tag="multi")
     res.rule = ("histories of 5..24 (thorough 5..40) operations (Add with sorted/duplicate attribute types, Modify add/delete/replace/increment with 0..3 values, "
                 "Delete of users and groups, Search by entry DN / users base / groups base / member filter / case-folded base, SetUsers, binds) over a pool of 6 "
                 "users and 3 groups whose DNs are not substrings of one another, issued one at a time by a real go-ldap client against a real directory; after "
@@ -1526,7 +1582,7 @@ def life_spec(pid, line, snaps, div=None):
     # responses: a client receives one frame per handler write, and nothing else (no answer to an
     # Unbind, no frame of another connection); a request with a plain script on an undisturbed
     # connection is served.  Judged before any Stop (Stop adds its notice of disconnection).
-    if OPS and pid in ("C03", "C06", "C07", "C08", "C09", "C10", "C13", "C17"):
+    if OPS and pid in ("C03", "C05", "C06", "C07", "C08", "C09", "C10", "C13", "C17"):
         for k, p in enumerate(P):
             reqs, dirty, stopped = rx_bounds(OPS, k + 1, len(p["conns"]))
             if stopped:
@@ -1549,7 +1605,7 @@ def life_spec(pid, line, snaps, div=None):
                     if it["kind"] == "unbind":
                         after_unbind = True
                         continue
-                    if str(rid) not in ended and not any(st.startswith("b") or st == "hs" for st in it["steps"]) and settled(k):
+                    if str(rid) not in ended and not any(st.startswith("b") or st in ("hs", "p", "pw") for st in it["steps"]) and settled(k):
                         unserved = rid
                 rx = int(c["rx"])
                 if rx > hi:
@@ -1568,6 +1624,12 @@ def life_spec(pid, line, snaps, div=None):
         if pid == "C07" and p.get("run") in ("err", "ok") and p.get("stops", "0/0").endswith("/0") and "addr=" not in line.split(" ")[2]:
             return ("run-returned", "Run returned (%s) at operation %d although Stop was never called: the server no longer accepts connections%s" % (
                 p.get("run"), k, " (after a failed accept: descriptor exhaustion)" if "accepterr" in ops_text else ""))
+        if pid == "C17" and ("addr=busy" in cfgs or "addr=dup" in cfgs):
+            # the address is in use (by a plain listener / by another gldap server): Run fails, Ready is never true
+            if p.get("ready") == "1":
+                return ("ready-on-busy-port", "Ready() is true for a server whose address was already in use%s (operation %d)" % (" by another gldap server" if "addr=dup" in cfgs else "", k))
+            if settled(k) and p.get("run") == "running":
+                return ("run-on-busy-port", "Run did not return an error although its address was already in use%s (operation %d)" % (" by another gldap server" if "addr=dup" in cfgs else "", k))
         if pid == "C17":
             if p.get("ready") == "1" and p.get("run") in ("err", "none"):
                 return ("ready-without-listener", "Ready() is true although Run %s" % ("returned an error" if p.get("run") == "err" else "was not called"))
@@ -1622,7 +1684,7 @@ def life_spec(pid, line, snaps, div=None):
                         allreqs, _, _ = rx_bounds(OPS, len(OPS), len(p["conns"]))
                         def _panics(x):
                             try:
-                                return "p" in allreqs.get(ci, [])[int(x.rstrip("ntu")) - 1]["steps"]
+                                return any(st in ("p", "pw") for st in allreqs.get(ci, [])[int(x.rstrip("ntu")) - 1]["steps"])
                             except Exception:
                                 return True
                         running = [x for x in running if not _panics(x)]
@@ -1907,6 +1969,19 @@ def make_life_check(pid, gens):
         if pid == "C07":
             k1_live(res)
             k4_live(res)
+            # hundreds of connections ending in the same instant
+            envw = dict(GOENV, VERIF_CERTDIR=os.path.join(WORK, "certs"))
+            case = "c07waves w 128 %d" % (4 if tier == "quick" else 40)
+            p = subprocess.run([VH, "run"], input=case + "\n", stdout=subprocess.PIPE, stderr=subprocess.PIPE, text=True, errors="replace", env=envw, timeout=600)
+            r = parse_results(p.stdout).get(("c07waves", "w"), "HARNESS no result")
+            res.evaluations += 1
+            res.nontrivial.add(case)
+            if r.startswith("SPECFAIL"):
+                res.violation("many-connections-ending-at-once", case, r, "process alive, bystanders served", r[9:])
+            elif not r.startswith("OK"):
+                res.mismatch(case, r, "-")
+            else:
+                res.sample(case + "  =>  " + r)
             # a client that stalls in its TLS handshake on a TLS listener, with bystanders before and after
             env = dict(GOENV, VERIF_CERTDIR=os.path.join(WORK, "certs"))
             for how in ("idle", "partial"):
@@ -1921,6 +1996,18 @@ def make_life_check(pid, gens):
                 else:
                     res.sample("c07tlsstall %s  =>  %s" % (how, r))
         if pid == "C09":
+            # Run again on a stopped server: ids never come back
+            envr = dict(GOENV, VERIF_CERTDIR=os.path.join(WORK, "certs"))
+            p = subprocess.run([VH, "run"], input="c09rerun r\n", stdout=subprocess.PIPE, stderr=subprocess.PIPE, text=True, errors="replace", env=envr, timeout=120)
+            r = parse_results(p.stdout).get(("c09rerun", "r"), "HARNESS no result")
+            res.evaluations += 1
+            res.nontrivial.add("c09rerun r")
+            if r.startswith("SPECFAIL"):
+                res.violation("connection-ids-second-run", "c09rerun r", r, "ids never reused by one server", r[9:])
+            elif not r.startswith("OK"):
+                res.mismatch("c09rerun r", r, "-")
+            else:
+                res.sample("c09rerun r  =>  " + r)
             # ids on a TLS listener while some clients never complete their handshake
             env = dict(GOENV, VERIF_CERTDIR=os.path.join(WORK, "certs"))
             for how in ("silent", "garbage", "three"):
@@ -1937,7 +2024,7 @@ def make_life_check(pid, gens):
         res.rule = LIFE_RULES[pid] + "; every scenario is predicted by the LTS (Sys.v, canonical scheduler to quiescence) and forced on a real server in a worker process; after each operation the observed snapshot (ready, Run/Stop returns, port, per connection: id, handlers started/ended, closed, OnClose count) must become and stay the predicted one; one evaluation = one scenario"
     CHECKS[pid] = fn
 
-for _pid, _g in [("C06", ["c06", "upgradeids", "pipe300"]), ("C07", ["c07", "c07accept", "c07stall", "c07stale"]), ("C08", ["c08", "c08edges", "stopbulk", "pipe300"]), ("C09", ["c09", "upgradeids", "c07accept"]), ("C10", ["c10", "c10busy", "c10panic"]), ("C11", ["c11", "c11accept", "stopbulk", "c11readtimeout"]), ("C12", ["c12", "c12accept", "c12slowstop"]), ("C13", ["c13", "upgradestale"])]:
+for _pid, _g in [("C06", ["c06", "upgradeids", "pipe300", "debugblocked"]), ("C07", ["c07", "c07accept", "c07stall", "c07stale", "panicinwrite", "debugblocked"]), ("C08", ["c08", "c08edges", "stopbulk", "pipe300", "panicinwrite"]), ("C09", ["c09", "upgradeids", "c07accept"]), ("C10", ["c10", "c10busy", "c10panic"]), ("C11", ["c11", "c11accept", "stopbulk", "c11readtimeout"]), ("C12", ["c12", "c12accept", "c12slowstop"]), ("C13", ["c13", "upgradestale"])]:
     make_life_check(_pid, _g)
 
 
@@ -1995,6 +2082,10 @@ def check_c05(tier, seed, res):
                 "listener and StartTLS-upgraded) connections; the client parses the stream strictly and incrementally: only whole LDAPMessages, exactly the "
                 "frames written, each once, each writer's in order; (b) sequential Writes through real ResponseWriters over a writer that short-writes and fails "
                 "at a chosen call, bytes that reached the writer and per-Write results compared with Writer.v; distinct = distinct case text")
+    # frames of OTHER connections: clients that go away while their handlers still run, new clients
+    # right behind them, then the late handlers write - every client receives exactly what the
+    # handlers of its own connection wrote (predicate unexpected-frame / lost-frame)
+    life_check("C05", ["c07stale"], 0, tier, seed, res)
     res.assumptions.append("net.Conn.Write / tls.Conn.Write are atomic with respect to other writes on the same connection (one writer at a time is what the mutex guarantees)")
 
 
